@@ -594,6 +594,8 @@ RULES = {
     "R3n2": Rule("R3n2", "self - self.mod_floor(other) -> Sub::sub(self, self.mod_floor(other))", "self - self . mod_floor ( other )", "Sub :: sub ( self , self . mod_floor ( other ) )"),
     "R3n3": Rule("R3n3", "self / self.gcd(other) * other -> Mul::mul(Div::div(self, self.gcd(other)), other)", "self / self . gcd ( other ) * other", "Mul :: mul ( Div :: div ( self , self . gcd ( other ) ) , other )"),
     "R3n4": Rule("R3n4", "self / &gcd * other -> Mul::mul(Div::div(self, &gcd), other)", "self / & gcd * other", "Mul :: mul ( Div :: div ( self , & gcd ) , other )"),
+    "R3n6": Rule("R3n6", "&self.data / &egcd.gcd.data * &other.data -> Mul::mul(Div::div(&self.data, &egcd.gcd.data), &other.data)  (Rust precedence: `/` and `*` left-associative, equal precedence)",
+                 "& self . data / & egcd . gcd . data * & other . data", "Mul :: mul ( Div :: div ( & self . data , & egcd . gcd . data ) , & other . data )"),
     "R3n5": Rule("R3n5", "(self % other) -> (Rem::rem(self, other))", "( self % other )", "( Rem :: rem ( self , other ) )"),
     "R3q": Rule("R3q", "&self % other -> Rem::rem(&self, other)", "& self % other", "Rem :: rem ( & self , other )"),
     "R3r": Rule("R3r", "self % other -> Rem::rem(self, other)", "self % other", "Rem :: rem ( self , other )"),
@@ -728,14 +730,17 @@ RULES = {
     "R12m3": Rule("R12m3", "let big_digits = { FLOAT }; let mut data = Vec::with_capacity(big_digits.to_usize().unwrap_or(0)); -> let mut data = Vec::with_capacity(__cap_hint());  (ABSTRACTION as R12m2)",
                   "let big_digits = { $$x } ; let mut data = Vec :: with_capacity ( big_digits . to_usize ( ) . unwrap_or ( 0 ) ) ;",
                   "let mut data = Vec :: with_capacity ( __cap_hint ( ) ) ;"),
-    "R45": Rule("R45", "self.iter_u32_digits().collect() -> { let mut it__ = self.iter_u32_digits(); let mut v__ = Vec::new(); loop { match it__.next() { Some(x__) => v__.push(x__), None => break, } } v__ }  (std: FromIterator for Vec pushes the items in the order `next` yields them, until None)",
-                "self . iter_u32_digits ( ) . collect ( )",
-                "{ let mut it__ = self . iter_u32_digits ( ) ; let mut v__ = Vec :: new ( ) ; loop { match it__ . next ( ) { Some ( x__ ) => v__ . push ( x__ ) , None => break , } } v__ }"),
+    "R45": Rule("R45", "self.iter_uNN_digits().collect() -> { let mut it__ = self.iter_uNN_digits(); let mut v__ = Vec::new(); loop { match it__.next() { Some(x__) => v__.push(x__), None => break, } } v__ }  (std: FromIterator for Vec pushes the items in the order `next` yields them, until None)",
+                "self . $f ( ) . collect ( )",
+                "{ let mut it__ = self . $f ( ) ; let mut v__ = Vec :: new ( ) ; loop { match it__ . next ( ) { Some ( x__ ) => v__ . push ( x__ ) , None => break , } } v__ }",
+                guard=lambda e: e["$f"][0] in ("iter_u32_digits", "iter_u64_digits")),
     "R3zd": Rule("R3zd", "&*self / other -> Div::div(&*self, other)", "& * self / other", "Div :: div ( & * self , other )"),
     "R16v": Rule("R16v", "Ord::cmp(&bit, &trailing_zeros) -> __u64_cmp(bit, trailing_zeros)  (std: total order on u64)",
                  "Ord :: cmp ( & bit , & trailing_zeros )", "__u64_cmp ( bit , trailing_zeros )"),
     "R0p": Rule("R0p", "crate::big_digit::BITS -> big_digit::BITS  (path of the same constant inside the unit's module)",
                 "crate :: big_digit :: BITS", "big_digit :: BITS"),
+    "R0r": Rule("R0r", "power::modpow -> modpow  (path of the same function inside the unit's module)",
+                "power :: modpow", "modpow"),
     "R0q": Rule("R0q", "bits::set_negative_bit -> set_negative_bit  (path of the same function inside the unit's module)",
                 "bits :: set_negative_bit", "set_negative_bit"),
     "R16u": Rule("R16u", "Ord::cmp(&a.len(), &b.len()) -> __usize_cmp(a.len(), b.len())  (std: total order on usize)",
